@@ -277,7 +277,8 @@ int renameat(int ofd, const char *o, int nfd, const char *n) {
 		long k = ++counter; struct plan pl = consult(k); char b1[4200], b2[4200]; int r, e;
 		const char *on = fdname(ofd, b1, sizeof b1), *nn = fdname(nfd, b2, sizeof b2);
 		if (pl.act == A_ERRNO) { r = -1; errno = pl.err; }
-		else if (getenv("VFIO_XDEV") && *getenv("VFIO_XDEV") && strcmp(on, nn) != 0) { r = -1; errno = EXDEV; }
+		else if (getenv("VFIO_XDEV") && *getenv("VFIO_XDEV") && strcmp(on, nn) != 0 &&
+		    (strncmp(getenv("VFIO_XDEV"), "name:", 5) != 0 || strstr(o, getenv("VFIO_XDEV") + 5) != NULL)) { r = -1; errno = EXDEV; }   /* "name:S": only renames of files whose name contains S */
 		else r = real_renameat(ofd, o, nfd, n);
 		e = errno;
 		RES("%ld renameat %s/%s %s/%s = %d%s%s", k, on, o, nn, n, r, r >= 0 ? "" : " ", r >= 0 ? "" : errname(e));
